@@ -170,8 +170,11 @@ pub struct GlobModel<'a> {
     pub glob: &'a Glob<'a>,
     /// Per-component programs (hook H2), compiled.
     pub components: Vec<regex::Regex>,
-    /// Components of the invariant prefix between the base and the directory the walk starts in.
+    /// Components of the invariant prefix between the base and the directory the walk starts in
+    /// (for a rooted glob: the components of the absolute directory the walk starts in).
     pub prefix: Vec<String>,
+    /// The glob is rooted: candidates are absolute paths.
+    pub rooted: bool,
 }
 
 pub struct Sim {
@@ -239,11 +242,13 @@ pub fn simulate(
             continue;
         }
         sim.fed.push(e.clone());
-        let cand = candidate_text(&prefix, &e.rel);
+        let rooted = glob.map_or(false, |g| g.rooted);
+        let cand = if rooted { format!("/{}", candidate_text(&prefix, &e.rel)) } else { candidate_text(&prefix, &e.rel) };
         let mut kept = true;
         let mut tree = false;
         if let Some(g) = glob {
-            let comps: Vec<&str> = if cand.is_empty() { Vec::new() } else { cand.split('/').collect() };
+            // (The root is not a candidate component.)
+            let comps: Vec<&str> = if cand.is_empty() { Vec::new() } else { cand.split('/').filter(|c| !rooted || !c.is_empty()).collect() };
             let n = comps.len().min(g.components.len());
             // The walker compares components from the one before the entry's own level onwards
             // (ancestors were compared when they were produced; under a minimum depth they were
